@@ -188,9 +188,24 @@ Definition icase_spec_ok (c : icase) : bool :=
 (* ---------- one plain-name lookup ---------- *)
 Inductive nscope := NModule | NFunc | NEval | NExec | NFuncEval | NComp | NClass
   (* inside the string expression of @state_trigger / @event_trigger / @state_active / task.wait_until(state_trigger=) *)
-  | NTrigState | NTrigEvent | NTrigActive | NTrigWait.
+  | NTrigState | NTrigEvent | NTrigActive | NTrigWait
+  (* the enclosing function declares the name global: never assigned / assigned / assigned then deleted; read in an inner function *)
+  | NGDecl | NGAssign | NGDel | NGDeclNested
+  (* inner function declares it nonlocal: outer assigns / assigns then deletes / never binds; plain closure read; deleted local *)
+  | NNlAssign | NNlDel | NNlNever | NClosure | NClosureDel | NLocalDel
+  (* nested function, method, comprehension / class body inside a function, dict comprehension at module level *)
+  | NNested | NMethod | NFuncComp | NFuncClass | NDictComp
+  (* natively compiled bodies: lambda (module level / inside a function), @pyscript_compile function *)
+  | NLambda | NLambdaFunc | NCompiled
+  (* interpreted code (module level / function) after a lambda was defined in the same global context *)
+  | NAfterLambda | NAfterLambdaFunc.
 Definition scope_is_trig (s : nscope) : bool :=
   match s with NTrigState | NTrigEvent | NTrigActive | NTrigWait => true | _ => false end.
+Definition scope_is_native (s : nscope) : bool :=
+  match s with NLambda | NLambdaFunc | NCompiled => true | _ => false end.
+(* the script itself declares/binds/deletes the looked-up name in that scope *)
+Definition scope_script_binds (s : nscope) : bool :=
+  match s with NGDecl | NGAssign | NGDel | NNlAssign | NNlDel | NNlNever | NClosure | NClosureDel | NLocalDel => true | _ => false end.
 Record ncase := {
   nc_name : string;
   nc_scope : nscope;
@@ -201,22 +216,40 @@ Record ncase := {
 }.
 Definition nkind_eqb (a b : nkind) : bool :=
   match a, b with
-  | KUser, KUser | KAstFunc, KAstFunc | KFactory, KFactory | KBuiltin, KBuiltin | KUndefined, KUndefined | KOther, KOther => true
+  | KUser, KUser | KAstFunc, KAstFunc | KFactory, KFactory | KBuiltin, KBuiltin | KBuiltinsNs, KBuiltinsNs
+  | KUndefined, KUndefined | KOther, KOther => true
   | KLogger x, KLogger y => String.eqb x y
   | _, _ => false
   end.
-(* in which table the lookup starts: function-like scopes start in their own table *)
-Definition scope_is_func (s : nscope) : bool :=
-  match s with NFunc | NFuncEval | NClass => true | _ => false end.
+(* in which table the lookup starts: module-like scopes start in the global table itself *)
+Definition scope_is_modlike (s : nscope) : bool :=
+  match s with
+  | NModule | NEval | NExec | NComp | NDictComp | NTrigState | NTrigEvent | NTrigActive | NTrigWait | NAfterLambda => true
+  | _ => false
+  end.
 Definition nenv_of (c : ncase) : nenv :=
-  {| ne_sym := nc_shadow c && negb (scope_is_func (nc_scope c));
-     ne_global := nc_shadow c && scope_is_func (nc_scope c);
-     ne_local := negb (scope_is_trig (nc_scope c));
-     ne_pybuiltin := nc_pybuiltin c |}.
-Definition ncase_model_ok (c : ncase) : bool :=
-  nkind_eqb (name_lookup (nenv_of c) (nc_name c)) (nc_kind c)
+  let s := nc_scope c in
+  let sh := nc_shadow c in
+  {| ne_sym := match s with NNlAssign | NClosure => true | _ => sh && scope_is_modlike s end;
+     ne_global := match s with NGAssign => true | NGDel => false | _ => sh && negb (scope_is_modlike s) end;
+     ne_local := negb (scope_is_trig s);
+     ne_pybuiltin := nc_pybuiltin c;
+     ne_gdecl := match s with NGDecl | NGAssign | NGDel => true | _ => false end;
+     ne_unbound := match s with NNlDel | NClosureDel => true | _ => false end;
+     ne_localname := match s with NLocalDel => true | _ => false end;
+     ne_native := scope_is_native s;
+     ne_leaked := match s with NAfterLambda | NAfterLambdaFunc => true | _ => false end |}.
+(* an unresolvable `nonlocal x` is only rejected (SyntaxError) when nothing else defines x *)
+Definition ncase_model (cfg : deviations) (c : ncase) : nkind :=
+  let k := name_lookup cfg (nenv_of c) (nc_name c) in
+  match nc_scope c with
+  | NNlNever => if nkind_eqb k KUndefined then KOther else k
+  | _ => k
+  end.
+Definition ncase_model_ok (cfg : deviations) (c : ncase) : bool :=
+  nkind_eqb (ncase_model cfg c) (nc_kind c)
   && match nc_kind c with KLogger _ => nc_logger_ok c | _ => true end.
-Definition ncase_explain (c : ncase) := name_lookup (nenv_of c) (nc_name c).
+Definition ncase_explain (cfg : deviations) (c : ncase) := ncase_model cfg c.
 
 (* the six names of the property statement (literally, not from Gen) *)
 Definition six_names : list string := ["open"; "compile"; "input"; "breakpoint"; "memoryview"; "print"].
@@ -225,15 +258,29 @@ Definition log_names : list (string * string) :=
 Definition ncase_spec_ok (c : ncase) : bool :=
   (* never the real builtin for the six names and for underscore names *)
   (if str_mem (nc_name c) six_names || starts_underscore (nc_name c)
-   then negb (nkind_eqb (nc_kind c) KBuiltin) else true)
+   then negb (nkind_eqb (nc_kind c) KBuiltin) && negb (nkind_eqb (nc_kind c) KBuiltinsNs) else true)
   && (* print and log.* resolve to the script's logger unless the script rebinds them *)
-  (if nc_shadow c || scope_is_trig (nc_scope c) then true   (* trigger expressions only see the trigger variables *)
+  (if nc_shadow c || scope_is_trig (nc_scope c) || scope_script_binds (nc_scope c)
+   then true   (* trigger expressions only see the trigger variables; or the script declares/binds the name itself *)
    else if String.eqb (nc_name c) "print"
         then match nc_kind c with KLogger _ => nc_logger_ok c | _ => false end
         else match assoc (nc_name c) log_names with
              | Some lvl => nkind_eqb (nc_kind c) (KLogger lvl) && nc_logger_ok c
              | None => true
              end).
+
+(* which open findings explain a Spec failure: the Model with the switch on differs from the Model with it off, and the
+   latter's answer satisfies the Spec (the framework separately requires that the Model reproduces the observation) *)
+Definition ncase_with (c : ncase) (k : nkind) : ncase :=
+  {| nc_name := nc_name c; nc_scope := nc_scope c; nc_shadow := nc_shadow c; nc_pybuiltin := nc_pybuiltin c;
+     nc_kind := k; nc_logger_ok := true |}.
+Definition explains (cfg off : deviations) (c : ncase) : bool :=
+  negb (nkind_eqb (ncase_model cfg c) (ncase_model off c)) && ncase_spec_ok (ncase_with c (ncase_model off c)).
+Definition ncase_attrib (cfg : deviations) (c : ncase) : list nat :=
+  (if d_native_builtins cfg && explains cfg {| d_native_builtins := false; d_builtins_leak := d_builtins_leak cfg |} c
+   then [170%nat] else [])
+  ++ (if d_builtins_leak cfg && explains cfg {| d_native_builtins := d_native_builtins cfg; d_builtins_leak := false |} c
+      then [171%nat] else []).
 
 (* ---------- one print / log call ---------- *)
 Record lcase := {
